@@ -448,7 +448,24 @@ package graphql
 //@   ensures len(ti.typeStack) > 0 ==> result == ti.typeStack[len(ti.typeStack)-1]
 //@   ensures len(ti.typeStack) == 0 ==> result == nil
 
+// C09: a type reference the parser left empty (known finding F5) reaches typeFromAST as a nil
+// ast.Type, also nested in a list or non-null wrapper: it must be answered, not dereferenced.
 //@ func typeFromAST
+//@   props C09
+//@   assigns nothing
+//@   nopanic
+//@   ensures inputTypeAST == nil ==> err != nil
+//@ func NewList
+//@   trusted
+//@   assigns nothing
+//@ func NewNonNull
+//@   trusted
+//@   assigns nothing
+//@ func invariant
+//@   trusted
+//@   assigns nothing
+//@   ensures !condition ==> result != nil
+//@ func Schema.Type
 //@   trusted
 //@   assigns nothing
 
